@@ -8,6 +8,7 @@ public method call of the three graph classes.
 """
 import itertools
 
+PYTHON_O_STRIDE = {"quick": 4, "thorough": 2}      # every n-th case is repeated in an interpreter started with -O
 RULE = ("histories of add_edge / add_edges_from / remove_edge / update_vertex_number (operations a class "
         "does not offer are not generated) with vertex arguments from -1..n+2 on Graph, DirectedGraph, "
         "BipartiteGraph, CompleteBipartiteGraph and the named constructions; all histories of length <= 2 "
